@@ -55,11 +55,11 @@ UNIT = {
         lx('is_next_additional_name_symbol', ret='r', requires=[('wf', WFS)], ensures=nxt('g_additional_name_symbol')),
         lx('comment_length', loops=2, ret='r',
            requires=[('wf', WFS), ('in_input', 'self.position + offset <= self.input@.len()')],
-           ensures=[('within_the_input_and_not_empty', 'r is Some ==> 2 <= r->Some_0 && self.position + offset + r->Some_0 <= self.input@.len()')],
-           loop_specs={0: {'invariant': [('wf', WFS), ('progress', '2 <= length && self.position + offset + length <= self.input@.len()')], 'decreases': 'self.input@.len() - (self.position + offset + length)'},
-                       1: {'invariant': [('wf', WFS), ('progress', '2 <= length && self.position + offset + length <= self.input@.len()')], 'decreases': 'self.input@.len() - (self.position + offset + length)'}}),
-        lx('is_next_character', ret='r', loops=1, requires=[('wf', WFS), ('offset', 'self.position + offset <= self.input@.len()')],
-           loop_specs={0: {'invariant': [('wf', WFS), ('offset', 'self.position + offset <= self.input@.len()')], 'decreases': 'self.input@.len() - (self.position + offset)'}}),
+           ensures=[('within_the_input_and_not_empty', 'r is Some ==> 2 <= r->Some_0 && self.position + offset + r->Some_0 <= self.input@.len()'),
+                    ('exactly_where_a_comment_begins', '(r is Some) == starts_comment(self.input@, self.position + offset)')],
+           loop_specs={0: {'invariant': [('wf', WFS), ('progress', '2 <= length && self.position + offset + length <= self.input@.len()'), ('began', 'starts_comment(self.input@, self.position + offset)')], 'decreases': 'self.input@.len() - (self.position + offset + length)'},
+                       1: {'invariant': [('wf', WFS), ('progress', '2 <= length && self.position + offset + length <= self.input@.len()'), ('began', 'starts_comment(self.input@, self.position + offset)')], 'decreases': 'self.input@.len() - (self.position + offset + length)'}}),
+        {'kind': 'vrs', 'file': 'names/lookahead.vrs'},
         lx('consume_name', ret='r', loops=3, attrs='#[verifier::exec_allows_no_decreases_clause]\n#[verifier::rlimit(200)]',
            requires=[('wf', WF0), ('at_name_start', 'old(self).position < old(self).input@.len() ==> g_name_part(old(self).input@[old(self).position as int])')],
            body_prefix='proof { reveal_strlit(""); }\nbroadcast use vstd::std_specs::hash::group_hash_axioms;\nbroadcast use group_string_keys;\nproof { axiom_string_key_model(); }',
@@ -70,7 +70,8 @@ UNIT = {
            splices=[{'id': 'pushed_first_word', 'op': 'after', 'anchor': 'consumed_positions.push(self.position);', 'nth': 0, 'text': PUSHED},
                     {'id': 'pushed_word', 'op': 'after', 'anchor': 'consumed_positions.push(self.position);', 'nth': 1, 'text': PUSHED},
                     {'id': 'pushed_symbol', 'op': 'after', 'anchor': 'parts.push(current_part.clone());', 'nth': 2, 'text': PUSHED},
-                    {'id': 'scan_end', 'op': 'before', 'anchor': 'if let Some(part_name) = parts.get(0) {', 'text': 'let ghost end0 = self.position;\nlet ghost parts_all = parts@;'},
+                    {'id': 'scan_end', 'op': 'before', 'anchor': "if self.is_next_character(&[':'], 0) {", 'nth': 0, 'text': "let ghost end0 = self.position;\nlet ghost parts_all = parts@;\nproof { assert([':']@ =~= seq![':']); }"},
+                    {'id': 'not_introduced', 'op': 'before', 'anchor': 'if let Some(part_name) = parts.get(0) {', 'text': "proof { assert([':']@ =~= seq![':']); assert(!next_is(self.input@, end0 as int, seq![':'])); }"},
                     {'id': 'item_pos', 'op': 'before', 'anchor': 'self.position = consumed_positions[0] + 1;', 'text': 'proof { assert(part_ok(self.input@, old(self).position as int, parts@, consumed_positions@, 0)); }'},
                     {'id': 'in_pos', 'op': 'before', 'anchor': 'parts.truncate(index);', 'text': 'proof { assert(part_ok(self.input@, old(self).position as int, parts@, consumed_positions@, index - 1)); assert(first_in(parts_all, index as int)); }'},
                     {'id': 'type_pos', 'op': 'before', 'anchor': 'self.position = consumed_positions[part_count - 1] + 1;', 'nth': 1,
@@ -98,6 +99,7 @@ UNIT = {
                        1: {'body_prefix': 'broadcast use vstd::std_specs::hash::group_hash_axioms;\nbroadcast use group_string_keys;\nproof { axiom_string_key_model(); }',
                            'invariant': [
                              ('all_parts', 'parts@ == parts_all && self.position == end0 && lx_wf(self.position, self.input@)'),
+                             ('not_introduced', "!next_is(self.input@, end0 as int, seq![':'])"),
                              ('no_tweak_applies', 'parts_all[0]@ != "item"@ && !(old(self).till_in && exists |i: int| first_in(parts_all, i))'),
                              ('frame', 'self.input == old(self).input && self.scope == old(self).scope && self.till_in == old(self).till_in && !self.type_name && type_name_expected == old(self).type_name'),
                              ('keys', 'forall |k: String| #[trigger] flattened_keys@.contains(k) <==> scope_keys(*self.scope).contains(k@)'),
@@ -106,6 +108,7 @@ UNIT = {
                        2: {'invariant': [
                              ('frame', 'self.input == old(self).input && self.scope == old(self).scope && self.till_in == old(self).till_in && !self.type_name && type_name_expected && old(self).type_name'),
                              ('all_parts', 'parts@ == parts_all && self.position == end0 && lx_wf(self.position, self.input@)'),
+                             ('not_introduced', "!next_is(self.input@, end0 as int, seq![':'])"),
                              ('scan', 'name_scan(self.input@, old(self).position as int, parts@, consumed_positions@, self.position as int)'),
                              ('no_tweak_applies', 'parts_all[0]@ != "item"@ && !(old(self).till_in && exists |i: int| first_in(parts_all, i)) && no_match(parts_all, scope_keys(*old(self).scope)) && name == name_of_parts(parts_all)'),
                              ('longer_prefixes_are_not_type_names', 'part_count <= parts@.len() && forall |k2: int| part_count < k2 <= parts@.len() ==> !is_type_name(name_of_parts(#[trigger] parts@.subrange(0, k2)))')]}},
@@ -114,7 +117,7 @@ UNIT = {
                      ('RX', 'R11', r'part_name == "item"', 'string_is(part_name, "item")', 1),
                      ('RX', 'R11', r'Name::from\("item"\)', 'name_from_str("item")', 1),
                      ('RX', 'R13', r'parts\.iter\(\)\.(r?)position\(\|value\| value == "in"\)\.filter\(\|index\| \*index > 0\)', r'\1position_of_in(&parts)', 1),
-                     ('RX', 'R11', r'TokenValue::Name\(parts\.to_vec\(\)\.into\(\)\)', 'TokenValue::Name(name_from_parts(parts.as_slice()))', 1),
+                     ('RX', 'R11', r'TokenValue::Name\(parts\.to_vec\(\)\.into\(\)\)', 'TokenValue::Name(name_from_parts(parts.as_slice()))', None),
                      ('RX', 'R11', r'TokenValue::Name\(part_sublist\.to_vec\(\)\.into\(\)\)', 'TokenValue::Name(name_from_parts(part_sublist))', 1),
                      ('RX', 'R11', r'let name: Name = parts\.to_vec\(\)\.into\(\);', 'let name: Name = name_from_parts(parts.as_slice());', 1),
                      ('RX', 'R11', r'&parts\[\.\.part_count\]', 'vstd::slice::slice_subrange(parts.as_slice(), 0, part_count)', 1),
@@ -137,7 +140,7 @@ BOUNDED = {
                       '(the string code - trim / join / replace / format! - that decides whether flattened parts equal a flattened key is outside Verus\' reach)'},
             {'name': 'iteration-variable-names', 'driver': 'feelcases', 'args': ['/verif/replay/cases/C10_iteration_names.txt', 'all'],
              'functions': ['Lexer::consume_name (the name before `in` in for / some / every)', 'Parser actions that register the variable'],
-             'bound': '10 expressions: for / some / every over bound one- and two-word names whose body uses the `in` operator on names again (the variable ends before the FIRST `in`), and iteration variables spelled like an '
+             'bound': '17 expressions: context keys, typed formal parameters and named parameters that begin with a bound name or are spelled like an operator expression of bound names (taken whole: they are followed by a colon); for / some / every over bound one- and two-word names whose body uses the `in` operator on names again (the variable ends before the FIRST `in`), and iteration variables spelled like an '
                       'operator expression of bound names (a-b, a+b, a*b) followed by that expression outside the construct (the name ends with its construct)'}],
 }
 # C01: a filter / path over bound lists and contexts answers by the VALUES bound (entry names inside bound values resolve whatever the position
